@@ -1830,12 +1830,23 @@ func generatePrefixStringTemplate(scope *parser.Scope) string {
 	if len(scope.Prefix.Variables) == 0 {
 		return template
 	}
+	// The text that follows each variable: "$name" would take a letter, digit
+	// or underscore there for a part of the name, "${name}" does not.
+	followers := strings.Split(scope.Prefix.Template("\x00")+globals.TopicDelimiter, "\x00")[1:]
 	vars := make([]interface{}, len(scope.Prefix.Variables))
 	for i, variable := range scope.Prefix.Variables {
-		vars[i] = fmt.Sprintf("$%s", variable)
+		if i < len(followers) && followers[i] != "" && isIdentifierPart(followers[i][0]) {
+			vars[i] = fmt.Sprintf("${%s}", variable)
+		} else {
+			vars[i] = fmt.Sprintf("$%s", variable)
+		}
 	}
 	template = fmt.Sprintf(template, vars...)
 	return template
+}
+
+func isIdentifierPart(c byte) bool {
+	return c == '_' || ('0' <= c && c <= '9') || ('a' <= c && c <= 'z') || ('A' <= c && c <= 'Z')
 }
 
 // GenerateSubscriber generates the subscriber for the given scope.
